@@ -250,7 +250,9 @@ impl<'i> Comment<'i> {
             output_handler(raw);
         } else {
             output_handler(b"<!--");
-            output_handler(&self.text);
+            if !self.text.is_empty() {
+                output_handler(&self.text);
+            }
             output_handler(b"-->");
         }
         Ok(())
